@@ -1,4 +1,5 @@
 """Sidecar contracts for the hash / address helpers of helper.py (C05, C16, C11 wiring)."""
+from . import summaries as _SUM_ALWAYS      # noqa: F401,E402  (summaries installed independent of import order)
 import z3
 from pyvc import prims as U
 from pyvc.logic import (Rope, as_rope, is_sym, land, lor, lnot, implies, iff, eq, ite, seg)
